@@ -2,33 +2,64 @@ open Model
 open Glue
 
 (* image argument: "-" = no volume; otherwise volumes separated by '/', files by ',',
-   a file is guid.type.size[.ui] (hex); an empty volume is the empty string.
-   File objects get the identities 0,1,2,... in tree order. *)
+   a file is guid.type.size[.ui] (hex) optionally followed by <volumes>, the nested
+   volumes of the file; an empty volume is the empty string.
+   File objects get the identities 0,1,2,... in pre-order. *)
 let parse_img (s : string) : image * z =
   if s = "-" then ([], Z0) else begin
     let n = ref 0 in
-    let vols = List.map (fun v ->
-        if v = "" then [] else
-          List.map (fun f ->
-              match String.split_on_char '.' f with
-              | g :: t :: sz :: rest ->
-                let id = !n in incr n;
-                (* optional 4th field: the file's UI section.  "n" = an ordinary name;
-                   <c><hex> = the string of GUID <hex> written in case variant c (u/l/m) *)
-                let ui = match rest with
-                  | [] | ["n"] -> None
-                  | [u] -> Some (z_of_hex (String.sub u 1 (String.length u - 1)))
-                  | _ -> failwith "bad file" in
-                { f_id = z_of_int id; f_guid = z_of_hex g; f_type = z_of_hex t; f_size = z_of_hex sz;
-                  f_ui = ui }
-              | _ -> failwith "bad file") (String.split_on_char ',' v))
-        (String.split_on_char '/' s) in
-    (vols, z_of_int !n)
+    let pos = ref 0 in
+    let len = String.length s in
+    let peek () = if !pos < len then Some s.[!pos] else None in
+    let rec vols () : file list list =
+      let v = vol () in
+      match peek () with
+      | Some '/' -> incr pos; v :: vols ()
+      | _ -> [v]
+    and vol () : file list =
+      match peek () with
+      | None | Some '/' | Some '>' -> []
+      | _ ->
+        let f = file () in
+        (match peek () with
+         | Some ',' -> incr pos; f :: vol_more ()
+         | _ -> [f])
+    and vol_more () : file list =
+      let f = file () in
+      (match peek () with
+       | Some ',' -> incr pos; f :: vol_more ()
+       | _ -> [f])
+    and file () : file =
+      let start = !pos in
+      while (match peek () with Some (',' | '/' | '<' | '>') | None -> false | _ -> true) do incr pos done;
+      let hd = String.sub s start (!pos - start) in
+      let id = !n in incr n;
+      let kids = (match peek () with
+          | Some '<' -> incr pos; let k = vols () in
+            (match peek () with Some '>' -> incr pos | _ -> failwith "missing >"); k
+          | _ -> []) in
+      match String.split_on_char '.' hd with
+      | g :: t :: sz :: rest ->
+        (* optional 4th field: the file's UI section.  "n" = an ordinary name;
+           <c><hex> = the string of GUID <hex> written in case variant c (u/l/m) *)
+        let ui = match rest with
+          | [] | ["n"] -> None
+          | [u] -> Some (z_of_hex (String.sub u 1 (String.length u - 1)))
+          | _ -> failwith "bad file" in
+        { f_id = z_of_int id; f_guid = z_of_hex g; f_type = z_of_hex t; f_size = z_of_hex sz;
+          f_ui = ui; f_kids = kids }
+      | _ -> failwith "bad file" in
+    let r = vols () in
+    if !pos <> len then failwith "trailing input";
+    (r, z_of_int !n)
   end
 
-let show_file f = hex_of_z f.f_guid ^ "." ^ hex_of_z f.f_type ^ "." ^ hex_of_z f.f_size
-let show_img (img : image) : string =
-  "[" ^ String.concat "/" (List.map (fun v -> String.concat "," (List.map show_file v)) img) ^ "]"
+let rec show_file f =
+  hex_of_z f.f_guid ^ "." ^ hex_of_z f.f_type ^ "." ^ hex_of_z f.f_size ^
+  (match f.f_kids with [] -> "" | k -> "<" ^ show_vols k ^ ">")
+and show_vols (vs : file list list) : string =
+  String.concat "/" (List.map (fun v -> String.concat "," (List.map show_file v)) vs)
+let show_img (img : image) : string = "[" ^ show_vols img ^ "]"
 let show_zs (l : z list) : string = "[" ^ String.concat "," (List.map hex_of_z l) ^ "]"
 
 let parse_zs (s : string) : z list =
